@@ -23,6 +23,7 @@ import (
 	"sort"
 	"strings"
 	"sync"
+	"sync/atomic"
 
 	"github.com/cockroachdb/pebble/v2"
 	"github.com/cockroachdb/pebble/v2/vfs"
@@ -79,8 +80,34 @@ func newMemKV() kv.DB {
 	return pebblekv.Wrap(pdb)
 }
 
+// failKV: the key-value store with a switch that makes the NEXT transaction commits fail
+// (nothing is written, an error is returned) — a storage fault, or a commit refused by a
+// replicated store. "After abort none does": a transaction whose commit failed is an
+// aborted one.
+type failKV struct {
+	kv.DB
+	armed atomic.Bool
+}
+
+var errCommitRefused = errors.New("verif: commit refused by the store")
+
+func (f *failKV) OpenTx() kv.Tx { return &failTx{Tx: f.DB.OpenTx(), f: f} }
+
+type failTx struct {
+	kv.Tx
+	f *failKV
+}
+
+func (t *failTx) Commit(ctx context.Context, opts ...any) error {
+	if t.f.armed.Load() {
+		return errCommitRefused
+	}
+	return t.Tx.Commit(ctx, opts...)
+}
+
 type store struct {
 	ctx  context.Context
+	fkv  *failKV
 	db   *gorp.DB
 	tbl  *gorp.Table[uint32, Row]
 	idxS *gorp.LookupIndex[uint32, Row, string]
@@ -107,7 +134,8 @@ func (s *store) openTable(wait bool) error {
 }
 
 func openStore(pre []Row, wait bool) (*store, error) {
-	s := &store{ctx: context.Background(), db: gorp.Wrap(newMemKV())}
+	fkv := &failKV{DB: newMemKV()}
+	s := &store{ctx: context.Background(), fkv: fkv, db: gorp.Wrap(fkv)}
 	if len(pre) > 0 {
 		rows := append([]Row{}, pre...)
 		if err := gorp.NewCreate[uint32, Row]().Entries(&rows).Exec(s.ctx, s.db); err != nil {
@@ -516,7 +544,7 @@ func (o op) String() string {
 		slot = "db"
 	}
 	switch o.K {
-	case "begin", "commit", "abort":
+	case "begin", "commit", "abort", "failcommit":
 		return o.K + "(" + slot + ")"
 	case "create", "rawset":
 		return fmt.Sprintf("%s(%s,%v)", o.K, slot, o.Rows)
@@ -562,7 +590,7 @@ type finding struct {
 
 type stats struct {
 	Ops, Queries, QueriesNonEmpty, InTxWithOwnWrites, WithForeignUncommitted, Ordered, Gets int
-	Commits, Aborts, Reopens, RawWrites, Updates, Deletes, Creates                          int
+	Commits, Aborts, Reopens, RawWrites, Updates, Deletes, Creates, FailedCommits           int
 	FilterUpdates, OrderedShort                                                             int
 }
 
@@ -721,6 +749,24 @@ func (w *world) apply(o op) {
 			w.st.Commits++
 			w.checkGets(-1)
 		}
+	case "failcommit":
+		// the store refuses this commit: nothing of the transaction may become visible,
+		// in the table or in any index
+		if o.Slot >= 0 && w.txs[o.Slot] != nil {
+			w.s.fkv.armed.Store(true)
+			err := w.txs[o.Slot].Commit(ctx)
+			w.s.fkv.armed.Store(false)
+			_ = w.txs[o.Slot].Close()
+			if err == nil {
+				w.report("c17:tx:refused-commit-reported-success", "the store refused the commit, Tx.Commit returned nil")
+				w.stop = true
+				return
+			}
+			w.txs[o.Slot], w.ov[o.Slot] = nil, nil
+			w.st.Aborts++
+			w.st.FailedCommits++
+			w.checkGets(-1)
+		}
 	case "abort":
 		if o.Slot >= 0 && w.txs[o.Slot] != nil {
 			_ = w.txs[o.Slot].Close()
@@ -844,7 +890,7 @@ func (w *world) apply(o op) {
 		w.checkGets(w.effSlot(o.Slot))
 	}
 	switch o.K {
-	case "commit", "abort", "create", "rawset", "rawdel", "reopen":
+	case "commit", "abort", "failcommit", "create", "rawset", "rawdel", "reopen":
 		w.verifyState(o.K)
 	case "update", "delete":
 		kind := o.K + "-by-key"
@@ -1270,6 +1316,9 @@ func genScript(r *prng.R) script {
 			if !open[s] {
 				sc.Ops = append(sc.Ops, op{K: "begin", Slot: s})
 				open[s] = true
+			} else if r.Chance(1, 8) {
+				sc.Ops = append(sc.Ops, op{K: "failcommit", Slot: s})
+				open[s] = false
 			} else if r.Chance(2, 3) {
 				sc.Ops = append(sc.Ops, op{K: "commit", Slot: s})
 				open[s] = false
@@ -1500,6 +1549,7 @@ func addStats(h *harness.H, st *stats) {
 	h.Count("index_get_sweeps", st.Gets)
 	h.Count("tx_commits", st.Commits)
 	h.Count("tx_aborts", st.Aborts)
+	h.Count("tx_commits_refused_by_the_store", st.FailedCommits)
 	h.Count("table_reopens_bulk_populate", st.Reopens)
 	h.Count("observer_propagated_writes", st.RawWrites)
 	h.Count("creates", st.Creates)
